@@ -109,6 +109,9 @@ impl Scenario for KeepAlive {
             acts.push(Act::Send(0, "PING tok2 irc.irc".into()));
             // a token with inner and trailing blanks comes back byte for byte
             acts.push(Act::Send(0, "PING :tok 3  ".into()));
+            // the empty token is a token
+            acts.push(Act::Send(0, "PONG :".into()));
+            acts.push(Act::Send(0, "PING :".into()));
             // other traffic: a capability request after registration (no CAP END is owed)
             acts.push(Act::Send(0, "CAP REQ :multi-prefix".into()));
             if self.full {
